@@ -1208,6 +1208,8 @@ fn check_c05_universal() {
                         Err(e) => falsified("subgroup_cover", txt, format!("panic {}", e)),
                         Ok(c) => {
                             if !c.is_complete() { falsified("subgroup_cover", txt.clone(), "not complete".into()); continue; }
+                            // one sheet per coset of the subgroup: the index from a coset enumeration over the library's presentation with THESE generators
+                            if let Ok(ti) = quiet(|| coset_table(ngl, &g.relators, &sub)) { if c.size() != base.size() * ti.len() { falsified("subgroup_cover", txt.clone(), format!("{} sheets, but the subgroup generated by these words has index {}", c.size() / base.size(), ti.len())); continue; } }
                             if c.size() % base.size() != 0 || (order * base.size()) % c.size() != 0 { falsified("subgroup_cover", txt.clone(), format!("{} chambers over a base of {} whose universal cover has {}", c.size(), base.size(), order * base.size())); continue; }
                             if (1..=base.size()).all(|img| c.morphism(&base, img).map_or(true, |m| valid_morphism(&c, &base, &m).is_some() || m.iter().skip(1).any(|&x| x == 0))) { falsified("subgroup_cover", txt.clone(), "does not map onto the base by a morphism".into()); }
                         }
@@ -1234,6 +1236,10 @@ fn check_c13() {
         (3, vec![w(&[1, 1]), w(&[2, 2]), w(&[3, 3]), w(&[1, 2, 1, 2, 1, 2]), w(&[2, 3, 2, 3, 2, 3]), w(&[1, 3, 1, 3])], 24),   // S4
         (2, vec![w(&[1, 1, 1, 1]), w(&[2, 2]), w(&[1, 2, 1, 2])], 8),                                              // D4
         (1, vec![w(&[1, 1, 1, 1, 1, 1])], 6),
+        // presentations with a redundant generator (a relator of length one): rewritten relators of length one must survive
+        (2, vec![w(&[2]), w(&[1, 1, 1])], 3),                                                                        // Z3 = <a,b | b, a^3>
+        (3, vec![w(&[1, 1]), w(&[2, 2]), w(&[1, 2, 1, 2, 1, 2]), w(&[3])], 6),                                      // S3 with a trivial third generator
+        (2, vec![w(&[1, 1, 1, 1]), w(&[2, -1, -1])], 4),                                                             // Z4 = <a,b | a^4, b a^-2>
     ];
     for (n, rels, order) in &groups {
         let (n, order) = (*n, *order);
